@@ -1206,6 +1206,14 @@ def fam_vecconv(res, s, v):
 
 def fam_stream(res, s, v):
     b = unroll(list(v.body()))
+    for st in b:
+        if st[0] in ('expr', 'ret') and st[1] is not None:
+            lv = flatten(st[1], '<<')
+            if lv and lv[0][0] == 'v' and any(x[0] == 'm' and x[1] == ('p', 1) and x[2] in COMPS for x in map(strip_casts, lv[1:])):
+                res.bad(R5, 'operator<< formats the components into the local stream `%s` and inserts the finished text: the destination '
+                            'stream\'s precision, base, floatfield and locale are ignored, so the output is not what streaming the scalar '
+                            'components into `%s` gives' % (lv[0][1], s.names[0]), 'stream-detached')
+                return
     chain = [st for st in b if st[0] == 'expr']
     rets = [st for st in b if st[0] == 'ret']
     if len(b) != len(chain) + len(rets) or len(rets) != 1:
@@ -1326,6 +1334,8 @@ def classify(tu, f, s):
 
         def generic_fold(res, s, v):
             t = single_return(v)
+            if t is None and loop_fold(res, s, v, op, name):
+                return
             if t is None or not delegates_to_member(res, s, t, op, name):
                 res.und(R3, '%s over a generic component count: body is not a delegation to the member fold' % name)
         return 'fold', generic_fold
@@ -1367,9 +1377,84 @@ def delegates_to_member(res, s, t, op, what):
     return False
 
 
+FLOATING = {'float', 'double', 'long double'}
+
+
+def loop_fold(res, s, v, op, what):
+    """`T r = SEED; for (i = 0|1; i < N; ++i) r = op(r, v[i]); return r;` - True if a verdict was recorded"""
+    from fractions import Fraction
+    b = v.body()
+    names = s.names
+    if not (len(b) == 3 and b[0][0] == 'decl' and b[1][0] == 'for' and b[2][0] == 'ret' and b[2][1] == ('v', b[0][1])):
+        return False
+    R = ('v', b[0][1])
+    ini, cond, inc, lb = b[1][1], b[1][2], b[1][3], b[1][4]
+    if not (len(ini) == 1 and ini[0][0] == 'decl' and cond is not None and len(lb) == 1 and lb[0][0] == 'expr'):
+        return False
+    I = ('v', ini[0][1])
+    start = strip_casts(ini[0][2])
+    n = s.params[0]['sh']['n']
+    bound = ('lit', Fraction(n)) if isinstance(n, int) else ('tp', n)
+    if strip_casts(cond) != ('b', '<', I, bound) or inc not in (('u', 'post++', I), ('u', '++', I)) or start[0] != 'lit' \
+            or start[1] not in (0, 1):
+        return False
+    st = lb[0][1]
+    elem_i = ('idx', ('p', 0), I)
+    if op in ('min', 'max'):
+        okstep = st[0] == 'asg' and st[1] == '=' and st[2] == R and st[3][0] == 'call' and st[3][1] in ('min', 'max') \
+            and len(st[3][2]) == 2 and set(st[3][2]) == {R, elem_i}
+        step_op = st[3][1] if okstep else None
+    else:
+        okstep = (st[0] == 'asg' and st[2] == R and ((st[1] == op + '=' and st[3] == elem_i) or (
+            st[1] == '=' and st[3][0] == 'b' and st[3][1] == op and {st[3][2], st[3][3]} == {R, elem_i})))
+        step_op = op if okstep else None
+    if not okstep:
+        return False
+    if step_op != op:
+        res.bad(R3, '%s folds with `%s`, required `%s`' % (what, step_op, op), 'fold-op')
+        return True
+    seed = strip_casts(b[0][2], pred=lambda ty: True)
+    if seed in (('idx', ('p', 0), ('lit', Fraction(0))), ('m', ('p', 0), 'x')):
+        res.ok(R3, '%s = loop fold of `%s` over all %s components, seeded with the first component' % (what, op, n))
+        return True
+    if start[1] == 1:
+        res.bad(R3, '%s: the loop starts at component 1 but the accumulator starts as `%s`, not as the first component: component x '
+                    'never takes part' % (what, show(b[0][2], names)), 'fold-seed')
+        return True
+    elem = s.params[0]['sh']['elem']
+    neg = seed[0] == 'u' and seed[1] == '-'
+    core = seed[2] if neg else seed
+    lim = None
+    if core[0] == 'call' and not core[2]:
+        for nm, q, node in v.callees:
+            m = re.match(r'std::numeric_limits<(.+)>::(\w+)$', q or '')
+            if m and nm == core[1]:
+                lim = m.group(2)
+    tag = v.gtypes.get(core[1]) if core[0] == 'g' else None
+    isint = elem not in FLOATING and not elem.startswith('type-parameter')
+    ident = {'min': ('+infinity', {'infinity': not neg, 'max': isint and not neg}, tag == 'PosInfTy'),
+             'max': ('-infinity', {'infinity': neg, 'lowest': isint and not neg, 'min': isint and not neg}, tag == 'NegInfTy'),
+             '+': ('0', {}, tag == 'ZeroTy' or seed == ('lit', Fraction(0))),
+             '*': ('1', {}, tag == 'OneTy' or seed == ('lit', Fraction(1)))}.get(op)
+    if ident is None:
+        return False
+    if ident[2] or (lim is not None and ident[1].get(lim)):
+        res.ok(R3, '%s = loop fold of `%s` over all %s components, seeded with its identity' % (what, op, n))
+        return True
+    if lim is not None or tag is not None or seed[0] == 'lit':
+        shown = ('-' if neg else '') + ('numeric_limits<%s>::%s()' % (elem, lim) if lim else show(core, names))
+        res.bad(R3, '%s seeds the `%s` fold with `%s`, which is not the identity of %s on %s (required %s or the first component): '
+                    'numeric_limits<float>::min() is the smallest positive value, so reduce_max of a vector without a component >= '
+                    'FLT_MIN returns it; max()/lowest() are not +-infinity' % (what, op, shown, op, elem, ident[0]), 'fold-seed')
+        return True
+    return False
+
+
 def _ret_fold(res, s, v, op, leaf, n, what, cast=False):
     t = single_return(v)
     if t is None:
+        if not cast and loop_fold(res, s, v, op, what):
+            return
         res.und(R3, '%s: body is not a single return' % what)
         return
     if delegates_to_member(res, s, t, op, what):
@@ -1669,6 +1754,26 @@ def _expand_bulk(irnorm, X, Y):
     return out
 
 
+def _range_edge_literals(guard):
+    """literals `not (INT_MIN < x)` / `not (x < INT_MAX)` (32/64 bit, signed and unsigned): they force x to the extreme value, an
+    equality irnorm's order reasoning does not derive"""
+    import sympy as sp
+    mins = {-2 ** 31, -2 ** 63, 0}
+    maxs = {2 ** 31 - 1, 2 ** 63 - 1, 2 ** 32 - 1, 2 ** 64 - 1}
+    out = []
+    for l in guard:
+        if getattr(getattr(l, 'func', None), '__name__', '') != 'BNot' or not l.args:
+            continue
+        a = l.args[0]
+        if getattr(a.func, '__name__', '') not in ('slt', 'ult') or len(a.args) != 2:
+            continue
+        x, y = a.args
+        if (x.is_Integer and int(x) in mins and not y.is_Number) or (y.is_Integer and int(y) in maxs and not x.is_Number):
+            if not (getattr(a.func, '__name__', '') == 'slt' and x.is_Integer and int(x) == 0):
+                out.append(str(l))
+    return ', '.join(out)
+
+
 def _dependent_atoms(guard):
     """comparison atoms of a witness guard that have a computed (non-symbol) operand and share an input with another atom of
     the guard: irnorm's consistency check is complete only for independent operands, so such a witness may be spurious"""
@@ -1754,6 +1859,12 @@ def ir_identities(ctx, rule, unit, anchor_file, minimum, precondition=None, sing
                 break
             if not okk:
                 gA, tA, gB, tB = wit
+                ext = _range_edge_literals(list(gA) + list(gB))
+                if ext:
+                    ctx.undecided(rule, inst, 'slot %s differs only under a guard that pins an integer input to the end of its type\'s '
+                                              'range (%s), where the two values may coincide' % (slot, ext[:120]), loc)
+                    bad = True
+                    break
                 dep = _dependent_atoms(list(gA) + list(gB))
                 if dep:
                     ctx.undecided(rule, inst, 'slot %s differs only under a guard whose comparison atoms are over computed operands that '
@@ -1798,11 +1909,58 @@ def ir_identities(ctx, rule, unit, anchor_file, minimum, precondition=None, sing
 
 
 R6 = 'R-C04-6'
+R7 = 'R-C04-7'
+
+
+def check_driver_resolution(ctx, tu):
+    """R-C04-7: in the instantiation driver every operator written on vec_t operands must resolve to an overload of vec.h.  A
+    built-in operator applied after the implicit vec_t -> T* conversion (pointer comparison / pointer arithmetic) means the overload
+    set does not cover that combination of shapes any more - it still compiles, and compares addresses instead of components."""
+    n_ok = 0
+    for f in tu.functions.values():
+        if f['dep'] or not tu.files[f['f']].endswith('drivers/c04_vec.cpp'):
+            continue
+        body = tu.body(f)
+        if body is None:
+            continue
+        for n in tu.walk(body):
+            k = n.get('kind')
+            if k == 'CXXOperatorCallExpr' and (tu.sd(n).get('q') or '').startswith('rkcommon::math::operator'):
+                n_ok += 1
+            if k != 'BinaryOperator':
+                continue
+            hits = []
+            for side in tu.kids(n):
+                x = side
+                while x is not None and x.get('kind') in ('ImplicitCastExpr', 'ParenExpr', 'MaterializeTemporaryExpr', 'ExprWithCleanups'):
+                    if x.get('kind') == 'ImplicitCastExpr' and x.get('castKind') == 'UserDefinedConversion':
+                        for y in tu.walk(x):
+                            q = tu.sd(y).get('q') or ''
+                            if y.get('kind') == 'CXXMemberCallExpr' and 'vec_t<' in q and '::operator ' in q and q.rstrip().endswith('*'):
+                                obj = tu.kids(tu.strip(tu.kids(y)[0]))
+                                hits.append(tkey(tu.sd(obj[0]).get('ct') or '') if obj else 'vec_t')
+                                break
+                        break
+                    ks = tu.kids(x)
+                    x = ks[0] if ks else None
+            if hits:
+                op = n.get('opcode')
+                ctx.violation(R7, 'built-in `%s` in %s' % (op, f['q'].split('::')[-1]),
+                              'the expression `%s` on operands of type %s does not resolve to an operator of vec.h: each vec_t operand is '
+                              'converted by its implicit `operator T*()` and the built-in `%s` is applied to the pointers - the result '
+                              'depends on the objects\' addresses, not on their components (the overload set lost this combination of '
+                              'shapes)' % (tu.show(n)[:80], ' and '.join(hits), op), tu.loc(n),
+                              key='%s|%s|builtin %s on %s|pointer-fallback' % (R7, VEC_H, op, ','.join(sorted(set(hits)))))
+    ctx.ok(R7, 'drivers/c04_vec.cpp', '%d operator expressions on vec_t operands resolve to overloads of vec.h; none falls back to a '
+                                      'built-in operator on converted pointers' % n_ok, 'verif:drivers/c04_vec.cpp')
+    return n_ok
 
 
 def run(ctx):
     ctx.describe(R6, 'IR cross-check: each typed operation compiled through the real overload resolution (LLVM IR value '
                      'graph) equals the per-component scalar definition, slot by slot')
+    ctx.describe(R7, 'overload coverage: every operator use on vec_t operands in the driver (all shapes, mixed padding, mixed element '
+                     'types) resolves to an overload of vec.h, never to a built-in operator on implicitly converted pointers')
     ctx.describe(R1, 'uniformity: the components of the result are one expression up to the component letter; slot k reads '
                      'component k of every vector operand; exactly the components of the shape, each once')
     ctx.describe(R2, 'operator table: the per-component expression is the scalar operation the function name denotes, '
@@ -1826,7 +1984,9 @@ def run(ctx):
         label = '' if i == 0 else ' ' + ('%s%s' % (jobs[i].get('std', ''), '' if jobs[i].get('simd', True) else 'NO_SIMD'))
         fams, fams_typed, uncl, n_pat, n_typed, covered, by_loc = analyse(ctx, tu, label, ir)
         nl = check_layout(ctx, tu)
+        nres = check_driver_resolution(ctx, tu)
         if i == 0:
+            ctx.floor(R7, nres, 500, 'operator uses on vec_t operands in drivers/c04_vec.cpp')
             total = sum(fams.values()) + len(uncl)
             lines = ['%d x %s' % (c, k) for k, c in sorted(fams.items())]
             ctx.note('vec.h: %d template patterns / non-template functions classified: %s; unclassified: %d' % (
